@@ -146,6 +146,20 @@ def gen(g, nlogs, tier):
                     k = app(path, {b'food.yaml': bookfile, b'log.yaml': render(g, kept, layout)}, g=gf, kind=' '.join(path) + ' dst (deleted)', tz=tz, today_date=today)
                     a.meta.update({'pair': k, 'b': kw, 'e': which, 'pos': 'global', 'log': dlog, 'kept_days': kept, 'layout': layout})
                     cases += [a, k]
+        # the keywords next to the first day a four-digit layout can write: `yesterday` of 0000/01/01 has no spelling, but it is
+        # never spelled: keywords are moments, not texts (files written by hand: year 0 is below the range of the generator's dates)
+        if n == 0:
+            y0 = [b'0000/01/01', b'0000/01/03', b'0000/01/04', b'0000/01/05', b'0000/02/10']
+            def y0log(days):
+                return b''.join(d_ + b':\n  a/b: 1\n' for d_ in days)
+            for today, kw, which, keep in (('0000/01/05', 'last7', 'begin', y0), ('0000/01/05', 'last30', 'begin', y0), ('0000/01/01', 'yesterday', 'begin', y0),
+                                          ('0000/01/05', 'yesterday', 'begin', y0[2:]), ('0000/01/05', 'yesterday', 'end', y0[:3]), ('0000/01/01', 'yesterday', 'end', []),
+                                          ('0000/01/04', 'today', 'end', y0[:3]), ('0000/02/10', 'last30', 'begin', y0[4:]), ('0000/02/10', 'last30', 'end', y0[:4])):
+                for path in (['csv', 'log'], ['print'], ['reg']):
+                    a = app(path, {b'food.yaml': bookfile, b'log.yaml': y0log(y0)}, g={'today': today, which: kw}, kind=' '.join(path) + ' year0 kw:' + kw)
+                    k = app(path, {b'food.yaml': bookfile, b'log.yaml': y0log(keep)}, g={'today': today}, kind=' '.join(path) + ' year0 (deleted)')
+                    a.meta.update({'pair': k, 'b': kw, 'e': which, 'pos': 'global', 'log': []})
+                    cases += [a, k]
         # days centuries away from the epoch of the clock (before 1678, after 2262: beyond the range of nanosecond counters),
         # the first and the last year a four-digit layout can write
         if n % 3 == 0:
